@@ -716,7 +716,12 @@ def structural_masks(form, points):
     z = o = None
     shape0 = None
     nok = 0
-    for pname, vals in points:
+    # besides the points of the form, a few all-generic probes (no slot 0 or 1, no two slots equal), at unit and at
+    # tiny scale, so that a short letter set can never make a slot-dependent entry look structural
+    probes = []
+    for a, b, m in ((0.37, 0.211, 1.0), (-1.13, -0.173, 1.0), (2.3, 0.31, 1.0), (0.37, 0.211, 1e-9), (-1.13, 0.173, 1e-9)):
+        probes.append(('probe', tuple((a + b * i) * m for i in range(form.k))))
+    for pname, vals in list(points) + probes:
         try:
             thunk = form.build(vals)
         except Prep:
